@@ -963,11 +963,31 @@ def case_bw_threads(ctx, idx, rng):
            "fe": {"kind": "buffered", "limit": rng.choice([2, 5, 100, 100]), "period": None, "commitargs": {}}}
     nthreads = rng.choice([1, 2, 3])
     per = rng.randint(3, 8)
-    docs = [[gen_doc(rng, t * 100 + i, opts) for i in range(per)] for t in range(nthreads)]
+    # every thread works on its own keys (adds, then also updates/deletes of its own earlier documents, buffered or
+    # flushed by then), so the final model does not depend on the interleaving
+    progs, live = [], {}
+    for t in range(nthreads):
+        prog, mine = [], []
+        for i in range(per):
+            r = rng.random()
+            if mine and r < 0.2:
+                key = mine.pop(rng.randrange(len(mine)))
+                prog.append(("delete", key))
+            elif mine and r < 0.4:
+                key = rng.choice(mine)
+                prog.append(("update", gen_doc(rng, int(key), opts, stored_only_ok=False)))
+            else:
+                d = gen_doc(rng, t * 100 + i, opts)
+                prog.append(("add", d))
+                if "id" in d:
+                    mine.append(d["key"])
+        progs.append(prog)
+        model_apply(live, {"ops": prog})
     sleeps = [[rng.choice([0, 0, 0.0005, 0.002]) for _ in range(per)] for _ in range(nthreads)]
     ncommits = rng.randint(1, 4)
     csleeps = [rng.choice([0, 0.0005, 0.002, 0.005]) for _ in range(ncommits)]
-    w = {"variant": "threads", "config": cfg, "opts": opts, "threads": nthreads, "docs_per_thread": per,
+    w = {"variant": "threads", "config": cfg, "opts": opts, "threads": nthreads,
+         "programs": [[(op[0], op[1] if op[0] == "delete" else op[1]["key"]) for op in prog] for prog in progs],
          "timer_like_commits": ncommits, "case_idx": idx}
     tmpdir = tempfile.mkdtemp(prefix="vf-c18-")
     events, errors = [], []
@@ -976,19 +996,16 @@ def case_bw_threads(ctx, idx, rng):
         st = make_storage(cfg, tmpdir)
         ix = st.create_index(make_schema(opts))
         bw = writing.BufferedWriter(ix, period=None, limit=cfg["fe"]["limit"])
-        live = {}
-        for ds in docs:
-            for d in ds:
-                live[d["key"]] = d
 
         def adder(t):
             try:
-                for d, sl in zip(docs[t], sleeps[t]):
+                for op, sl in zip(progs[t], sleeps[t]):
                     if sl:
                         time.sleep(sl)
-                    events.append("a+")
-                    bw.add_document(**d)
-                    events.append("a-")
+                    tag = op[0][0]
+                    events.append(tag + "+")
+                    apply_ops(bw, [op])
+                    events.append(tag + "-")
             except BaseException as e:  # noqa
                 errors.append(e)
 
@@ -1013,6 +1030,7 @@ def case_bw_threads(ctx, idx, rng):
             hung = hung or th.is_alive()
         sys.setswitchinterval(old_si)
         ctx.count("c18.bw.thread_runs")
+        ctx.count("c18.bw.thread_deletes_updates", sum(1 for prog in progs for op in prog if op[0] != "add"))
         order = "".join(e[0] if e[1] == "+" else e[0].upper() for e in events)
         overlapped = False
         depth = 0
